@@ -24,10 +24,10 @@ Lemma pow2_split a b : 2 ^ (a + b) = 2 ^ a * 2 ^ b.
 Proof. apply N.pow_add_r. Qed.
 
 Lemma wrap_small x : x < W -> wrap x = x.
-Proof. intros; unfold wrap; apply N.mod_small; assumption. Qed.
+Proof. intros; rewrite wrap_mod; apply N.mod_small; assumption. Qed.
 Lemma wrap_add_W x : x < W -> wrap (x + W) = x.
 Proof.
-  intros Hx. unfold wrap. replace (x + W) with (x + 1 * W) by lia.
+  intros Hx. rewrite wrap_mod. replace (x + W) with (x + 1 * W) by lia.
   rewrite N.mod_add by (rewrite W_eq; apply N.pow_nonzero; lia). apply N.mod_small; assumption.
 Qed.
 
